@@ -26,6 +26,14 @@ def opt_cases(I, st, o):
     return EnumV(OPT, {"None": ((), {}), "Some": ((Top(deps_of(o) if o is not None else (), "payload of unknown option"),), {})})
 
 
+def _sn(o):
+    return "Some" if o.adt == OPT else "Ok"
+
+
+def _nn(o):
+    return "None" if o.adt == OPT else "Err"
+
+
 def branch_states(I, st, n):
     return [st] + [st.copy() for _ in range(n - 1)]
 
@@ -63,18 +71,19 @@ def guard_from(I, before, after, base=None):
 def m_option_map(I, st, c, args, body, t):
     o = opt_cases(I, st, args[0])
     out = []
-    if o.may("None"):
+    sn, nn = _sn(o), _nn(o)
+    if o.may(nn):
         s = st.copy()
-        if I.install_guard(s, o.variants["None"][1], narrowed=len(o.variants) > 1):
-            out.append((s, EnumV.none(o.adt)))
-    if o.may("Some"):
+        if I.install_guard(s, o.variants[nn][1], narrowed=len(o.variants) > 1):
+            out.append((s, EnumV(o.adt, {nn: (o.variants[nn][0], {})})))
+    if o.may(sn):
         s = st.copy()
-        g = o.variants["Some"][1]
+        g = o.variants[sn][1]
         if I.install_guard(s, g, narrowed=len(o.variants) > 1):
-            pl = I.resolve(s, o.payload("Some"))
+            pl = I.resolve(s, o.payload(sn))
             try:
                 s2, r = I.call_value(s, args[1], [pl])
-                out.append((s2, EnumV(o.adt, {"Some": ((r,), g)})))
+                out.append((s2, EnumV(o.adt, {sn: ((r,), g)})))
             except Diverge:
                 pass
     return join_results(I, out)
@@ -83,18 +92,21 @@ def m_option_map(I, st, c, args, body, t):
 def m_option_and_then(I, st, c, args, body, t):
     o = opt_cases(I, st, args[0])
     out = []
-    if o.may("None"):
+    sn, nn = _sn(o), _nn(o)
+    if o.may(nn):
         s = st.copy()
-        if I.install_guard(s, o.variants["None"][1], narrowed=len(o.variants) > 1):
-            out.append((s, EnumV.none(o.adt)))
-    if o.may("Some"):
+        if I.install_guard(s, o.variants[nn][1], narrowed=len(o.variants) > 1):
+            out.append((s, EnumV(o.adt, {nn: (o.variants[nn][0], {})})))
+    if o.may(sn):
         s = st.copy()
-        g = o.variants["Some"][1]
+        g = o.variants[sn][1]
         if I.install_guard(s, g, narrowed=len(o.variants) > 1):
-            pl = I.resolve(s, o.payload("Some"))
+            pl = I.resolve(s, o.payload(sn))
             try:
                 s2, r = I.call_value(s, args[1], [pl])
-                r = opt_cases(I, s2, r)
+                r = deref(I, s2, r)
+                if not isinstance(r, EnumV):
+                    r = opt_cases(I, s2, r) if o.adt == OPT else EnumV(RES, {"Ok": ((Top(deps_of(r), "and_then"),), {}), "Err": ((Top(deps_of(r), "and_then"),), {})})
                 # the result's variants hold under the outer guard too
                 nv = {}
                 for n, (p, gg) in r.variants.items():
@@ -165,9 +177,10 @@ def m_option_or(I, st, c, args, body, t):
 def m_option_unwrap_or(I, st, c, args, body, t):
     a = opt_cases(I, st, args[0])
     r = None
-    if a.may("Some"):
-        r = a.payload("Some")
-    if a.may("None"):
+    sn, nn = _sn(a), _nn(a)
+    if a.may(sn):
+        r = a.payload(sn)
+    if a.may(nn):
         r = args[1] if r is None else join(r, args[1])
     return st, r
 
@@ -196,15 +209,16 @@ def _guard_deps(e):
 def m_is_some_and(I, st, c, args, body, t):
     o = opt_cases(I, st, args[0])
     out = []
-    if o.may("None"):
+    sn, nn = _sn(o), _nn(o)
+    if o.may(nn):
         s = st.copy()
-        if I.install_guard(s, o.variants["None"][1], narrowed=len(o.variants) > 1):
+        if I.install_guard(s, o.variants[nn][1], narrowed=len(o.variants) > 1):
             out.append((s, BoolV(False)))
-    if o.may("Some"):
+    if o.may(sn):
         s = st.copy()
-        if I.install_guard(s, o.variants["Some"][1], narrowed=len(o.variants) > 1):
+        if I.install_guard(s, o.variants[sn][1], narrowed=len(o.variants) > 1):
             try:
-                s2, r = I.call_value(s, args[1], [I.resolve(s, o.payload("Some"))])
+                s2, r = I.call_value(s, args[1], [I.resolve(s, o.payload(sn))])
                 out.append((s2, r if isinstance(r, BoolV) else BoolV(None, None, deps_of(r))))
             except Diverge:
                 pass
@@ -228,8 +242,8 @@ def m_as_ref(I, st, c, args, body, t):
     o = opt_cases(I, st, r)
     v = {}
     for n, (pl, g) in o.variants.items():
-        if n == "Some" and isinstance(r, RefV):
-            v[n] = ((RefV(r.cell, r.proj + (("variant", "Some"), ("field", 0))),), g)
+        if n in ("Some", "Ok") and isinstance(r, RefV):
+            v[n] = ((RefV(r.cell, r.proj + (("variant", n), ("field", 0))),), g)
         else:
             v[n] = (pl, g)
     return st, EnumV(o.adt, v)
